@@ -1189,21 +1189,16 @@ Proof. intros H1 H2. apply parser_off_quiet_from; try assumption; [reflexivity|d
 Definition rnew (o : rop) : rout :=
   match o with RReload => ONone | RQ _ vnew | RBatch _ vnew => act vnew end.
 
-(** a session whose router holds the registered settings is judged by them, and stays so *)
-Lemma fresh_follows_new o : rstep true o = (match o with RReload => false | _ => true end, rnew o).
-Proof. destruct o as [|vo vn|vo vn]; cbn; try reflexivity. destruct vn; reflexivity. Qed.
+(** every statement is judged by the registered settings, whatever the session held before *)
+Lemma reload_follows_new ops : forall f, rrun f ops = map rnew ops.
+Proof.
+  unfold rrun. induction ops as [|o r IH]; intros f; [reflexivity|].
+  cbn [rrun_with map]. destruct o; cbn [rstep rnew]; rewrite IH; reflexivity.
+Qed.
 
 Lemma no_reload_follows_new ops : forallb (fun o => match o with RReload => false | _ => true end) ops = true ->
   rrun true ops = map rnew ops.
-Proof.
-  induction ops as [|o r IH]; intros H; [reflexivity|].
-  cbn [forallb] in H. apply andb_true_iff in H. destruct H as [Ho Hr].
-  cbn [rrun map]. rewrite fresh_follows_new. destruct o; [discriminate| |]; rewrite (IH Hr); reflexivity.
-Qed.
+Proof. intros _. apply reload_follows_new. Qed.
 
-(** one forwarded statement (one checkout) refreshes the session *)
 Lemma forwarded_refreshes f o f' : rstep f o = (f', OFwd) -> f' = true.
-Proof.
-  destruct o as [|vo vn|vo vn]; cbn; [intros H; discriminate| |];
-    destruct f; destruct vo, vn; cbn; intros H; inversion H; reflexivity.
-Qed.
+Proof. destruct o as [|vo vn|vo vn]; cbn; intros H; inversion H; reflexivity. Qed.
